@@ -2,7 +2,7 @@
    what the client reads out of the reply is exactly (offered and known and wanted), per reply form. *)
 From Coq Require Import List String NArith Bool Lia Arith.
 From FB Require Import Lib.Bytes Lib.Layout Spec.KernelABI Model.Server Model.ServerCmp
-  Spec.Requests Spec.Replies Spec.Init Proofs.ServerInitBits Proofs.ServerInitW.
+  Spec.Requests Spec.Replies Spec.Init Proofs.ServerInitBits Proofs.ServerInit.
 Import ListNotations.
 Local Open Scope N_scope.
 
